@@ -1,5 +1,5 @@
 /-
-  Observable labels of the Park model and its replay machine (live-mode families `park` and `blocker`).
+  Observable labels of the Park model and its replay machine (live-mode families `park`, `blocker`, `park_once`).
 
   The replayed world contains several `Park` objects (the per-coroutine handle of the parker; one per fresh
   `Blocker`); every event is routed to ONE of them and explained by `Park.step` of `Model/Runtime/Park.lean` - the
@@ -529,7 +529,10 @@ def machine : Machine where
     else
     let parker := (hget h "pname").getD (if (hget h "parker").getD "co" == "thr" then "p1" else "c:c1")
     let fix := (hget h "f6fix").getD "0" == "1"
-    .ok { fix := fix, parker := parker, parks := if fam == "park" || fam == "park_f6" then [{ st := { fix := fix } }] else [] }
+    -- the parker parks on its per-coroutine handle (Park number 0 exists from the start) or on fresh Blockers
+    -- (`blk.new`); family `park_once` has both variants, header `on=handle|blocker`
+    let onHandle := fam == "park" || fam == "park_f6" || hget h "on" == some "handle"
+    .ok { fix := fix, parker := parker, parks := if onHandle then [{ st := { fix := fix } }] else [] }
   actor := fun _ _ => some 0
   cands := cands
   inv := invW
